@@ -22,6 +22,7 @@ Section All.
     lv_depth t = S h /\
     Forall (fun r => length r = S h) (flatten t) /\
     (forall d, M_values_at_depth t d = Ok (S_column (flatten t) d)) /\
+    (forall d, M_labels_at_depth t d = Ok (S_column (flatten t) d)) /\
     M_blocks t = Ok (map (S_column (flatten t)) (seq 0 (S h))) /\
     (forall key, M_contains A eqb key t = S_contains A eqb (flatten t) key) /\
     (forall key, M_leaf_loc A eqb key t 0 = S_lookup A eqb (flatten t) key).
@@ -32,6 +33,7 @@ Section All.
     split; [apply (uniform_depth A t h Hu)|].
     split; [apply (flatten_row_length A t h Hu)|].
     split; [intro d; apply (values_at_depth_exact A t h d Hu Ho)|].
+    split; [intro d; apply (labels_at_depth_exact A t h d Hu Ho)|].
     split; [apply (blocks_exact A t h Hu Ho)|].
     split; [intro key; apply (contains_exact A eqb eqb_spec t h Hu Ho Hl key)|].
     intro key. apply (lookup_exact A eqb eqb_spec t h Hu Ho Hl key).
